@@ -98,7 +98,22 @@ namespace
         std::vector<std::string> shape_lens;
         // grid D: short names with ONE component of NAME_MAX bytes (first / middle / last directory / program name)
         std::vector<int> mixed_depths, mixed_flavours, mixed_invocations;
+        // grid E: process state left behind by earlier calls (STATES) x a few install paths of grid A/D (STATE_PATHS)
+        std::vector<int> state_paths, state_invocations;
     };
+    const std::vector<std::string>& states()
+    {
+        static std::vector<std::string> v;
+        if (v.empty())
+        {
+            v.push_back("fresh");
+            for (const char* e : {"0", "ENOENT", "EINTR", "ERANGE", "ENAMETOOLONG", "EINVAL", "ENOMEM", "EACCES", "ELOOP"}) v.push_back(std::string("errno:") + e);
+            for (const char* e : {"ENOENT", "EINTR", "ERANGE", "ENAMETOOLONG", "EINVAL", "ENOMEM", "EACCES", "ELOOP"}) v.push_back(std::string("syscall:") + e);
+            for (const char* e : {"called-before", "cwd-root", "cwd-deleted", "umask-0777", "stdin-closed"}) v.push_back(e);
+        }
+        return v;
+    }
+    const char* const STATE_PATHS[] = {"short", "one-255-byte-name", "total-1024", "total-4095"};
 
     // names that look special to path-handling code but are ordinary bytes on POSIX
     struct shape_def { const char* label; std::string name; };
@@ -159,6 +174,8 @@ namespace
             t.mixed_depths = {3, 8};
             t.mixed_flavours = {F_PLAIN, F_SPACES, F_HIGH};
             t.mixed_invocations = {I_DIRECT, I_LINK_FILE};
+            t.state_paths = {0, 1, 2};
+            t.state_invocations = {I_DIRECT};
         }
         else
         {
@@ -177,13 +194,15 @@ namespace
             t.mixed_depths = {3, 4, 8, 17, 40, 100};
             t.mixed_flavours = {F_PLAIN, F_SPACES, F_UTF8, F_HIGH, F_DOT, F_SPECIAL};
             t.mixed_invocations = t.invocations;
+            t.state_paths = {0, 1, 2, 3};
+            t.state_invocations = {I_DIRECT, I_RELATIVE, I_LINK_FILE};
         }
         return t;
     }
 
     struct slice
     {
-        std::string grid;  // "A" | "B" | "C" | "D"
+        std::string grid;  // "A" | "B" | "C" | "D" | "E" (E: depth = index into STATE_PATHS, lenclass = "states")
         int depth;             // A, B, D: directories below the root;  C: slot of the special name (index into POSITIONS)
         std::string lenclass;  // A, B: "short" | "max" | total length;  C: "natural" | total length;  D: entry of MIXED_POS
     };
@@ -276,10 +295,12 @@ namespace
         int e_lib = -1, e_macro = -1;
         std::string e_b16, e_b64;
         std::string asan_line;
+        std::string first;       // state called-before: what the earlier call returned
+        int repeat_equal = -1;   //                      and whether two earlier calls agreed
     };
 
     // run argv0path (as seen from the current directory = the bin directory) and collect what the helper printed
-    outcome run_helper(const std::string& invoke_path)
+    outcome run_helper(const std::string& invoke_path, const std::string& state = "")
     {
         const std::string outf = g_root + "/.c20_out", errf = g_root + "/.c20_err";
         pid_t pid = ::fork();
@@ -301,6 +322,8 @@ namespace
                      "handle_segv=0:handle_abort=0:handle_sigfpe=0:handle_sigbus=0:handle_sigill=0:halt_on_error=0:"
                      "detect_leaks=0:allocator_may_return_null=1:abort_on_error=0:exitcode=0:symbolize=0", 1);
             ::setenv("UBSAN_OPTIONS", "print_stacktrace=0:symbolize=0", 1);
+            if (!state.empty()) ::setenv("C20_STATE", state.c_str(), 1); else ::unsetenv("C20_STATE");
+            ::setenv("C20_SCRATCH", g_realroot.c_str(), 1);
             ::alarm(120);
             char* const argv[] = {const_cast<char*>(invoke_path.c_str()), nullptr};
             ::execv(invoke_path.c_str(), argv);
@@ -337,14 +360,17 @@ namespace
             std::istringstream ls(line);
             std::string k;
             ls >> k;
-            if (k == "exe" || k == "prefix")
+            if (k == "state_error") die("the helper could not enter state '" + state + "': " + line);
+            if (k == "repeat_equal") { ls >> r.repeat_equal; continue; }
+            if (k == "exe" || k == "prefix" || k == "first")
             {
                 size_t len = 0;
                 std::string hex;
                 ls >> len >> hex;
                 std::string v = unhex(hex);
                 if (v.size() != len) { r.how = "garbled helper output"; break; }
-                if (k == "exe") { r.exe = v; r.have_exe = true; }
+                if (k == "first") r.first = v;
+                else if (k == "exe") { r.exe = v; r.have_exe = true; }
                 else { r.prefix = v; r.have_prefix = true; }
             }
             else if (k == "asan_exe") ls >> r.asan_exe;
@@ -425,6 +451,9 @@ namespace
                     "expected the install path (" + std::to_string(expect_exe.size()) + " bytes), observed " + std::to_string(r.exe.size())
                     + " bytes; first difference at byte " + std::to_string(c) + ": expected '" + show_tail(expect_exe, c) + "' observed '" + show_tail(r.exe, c) + "'");
             }
+            if (r.repeat_equal == 0 || (r.repeat_equal == 1 && r.first != r.exe))
+                add("executable_path", "differs-between-calls", "repeated calls in one process returned different strings: " + std::to_string(r.first.size())
+                    + " bytes first, " + std::to_string(r.exe.size()) + " bytes later");
             exe_clean = ok && !exe_ub;
             vf::stat(ok ? "exe_path_correct" : "exe_path_wrong");
         }
@@ -481,6 +510,7 @@ namespace
         std::vector<std::string> names;  // directories + program name; empty = this case is not creatable
         std::string what;                // description for messages
         bool plain = false;
+        std::string state;               // grid E: C20_STATE for the helper
     };
 
     std::string relpath_shown(const std::vector<std::string>& names, const std::vector<size_t>& keep)
@@ -596,6 +626,33 @@ namespace
                 out.push_back(sp);
             }
         }
+        else if (sl.grid == "E")
+        {
+            invocations = T.state_invocations;
+            if (sl.depth < 0 || sl.depth > 3) die("bad state path");
+            std::vector<std::string> names;
+            int L = 0;
+            if (sl.depth == 1)
+                for (size_t i = 0; i < 4; ++i) names.push_back(component(F_PLAIN, int(i), i == 1 ? NAMEMAX : 3 + int(i % 4)));
+            else
+            {
+                int depth = sl.depth == 0 ? 2 : sl.depth == 2 ? 8 : 40;
+                std::vector<int> lens = name_lengths(depth, sl.depth == 0 ? "short" : sl.depth == 2 ? "1024" : "4095", F_PLAIN, &L);
+                for (size_t i = 0; i < lens.size(); ++i) names.push_back(component(F_PLAIN, int(i), lens[i]));
+            }
+            size_t total = size_t(R);
+            for (auto& x : names) total += 1 + x.size();
+            for (const std::string& st : states())
+            {
+                spec sp;
+                sp.label = st;
+                sp.state = st;
+                sp.names = names;
+                sp.what = "prior process state " + st + ", install path " + STATE_PATHS[sl.depth] + " (depth " + std::to_string(names.size() - 1) + ", total length "
+                    + std::to_string(total) + " bytes, plain names), path " + relpath_shown(names, {0, names.size() - 1});
+                out.push_back(sp);
+            }
+        }
         else die("unknown grid " + sl.grid);
         return out;
     }
@@ -629,7 +686,7 @@ namespace
             expect_exe += "/" + file;
             const int L = int(expect_exe.size());
             if (L > MAXLEN) die("internal: length bookkeeping");
-            if ((sl.grid == "A" || sl.grid == "B" || sl.grid == "C") && sl.lenclass != "short" && sl.lenclass != "max" && sl.lenclass != "natural"
+            if ((sl.grid == "A" || sl.grid == "B" || sl.grid == "C") && sl.lenclass != "states" && sl.lenclass != "short" && sl.lenclass != "max" && sl.lenclass != "natural"
                 && L != std::atoi(sl.lenclass.c_str()))
                 die("internal: length bookkeeping");
             L_any = L;
@@ -663,7 +720,7 @@ namespace
                     case I_LINK_DIR: how = ld + "/" + file; break;
                     case I_LINK_CHAIN: how = lc; break;
                     }
-                    outcome r = run_helper(how);
+                    outcome r = run_helper(how, sp.state);
                     std::string where = std::string("[grid ") + sl.grid + ", " + sp.what + ", invocation " + INVOCATIONS[inv] + ", build " + g_helpers[hv].first + "]";
                     const size_t fails_before = fails.size();
                     judge(r, expect_exe, expect_prefix, where, f, inv, exe_ub[inv], fails, global_fails);
@@ -672,19 +729,19 @@ namespace
                     vf::stat("evaluations");
                     vf::stat(std::string("runs_") + INVOCATIONS[inv]);
                     vf::stat("runs_grid_" + sl.grid);
-                    if (sl.grid != "C") vf::stat("runs_flavour_" + sp.label);
+                    if (sl.grid != "C" && sl.grid != "E") vf::stat("runs_flavour_" + sp.label);
                     if (L >= 1024) vf::stat("runs_with_path_ge_1024");
                     vf::smax("max_path_length", L);
                     vf::smax("max_depth", depth);
                     // distinct non-trivial: see ctx.rule in check.py
-                    bool trivial = sp.plain && L < 256 && (inv == I_DIRECT || inv == I_RELATIVE);
-                    if (!trivial && g_distinct.insert(expect_exe.substr(g_realroot.size()) + "\x01" + INVOCATIONS[inv]).second)
+                    bool trivial = (sp.plain || sp.state == "fresh") && L < 256 && (inv == I_DIRECT || inv == I_RELATIVE);
+                    if (!trivial && g_distinct.insert(expect_exe.substr(g_realroot.size()) + "\x01" + INVOCATIONS[inv] + "\x01" + sp.state).second)
                         vf::stat("distinct_nontrivial");
                     if (hv == 0 && cn == sample_at)
                         vf::sample(where + " -> executable_path() " + (r.exe == expect_exe ? "== install path" : "!= install path") + " ("
                             + std::to_string(r.exe.size()) + " bytes), prefix_path() " + (r.prefix == expect_prefix ? "== grandparent/" : "!= grandparent/")
                             + " (" + std::to_string(r.prefix.size()) + " bytes), asan " + (r.asan_exe || r.asan_prefix ? "REPORT" : "clean"),
-                            sl.grid == "C" || sl.grid == "D" ? 6 : 3);
+                            sl.grid == "A" || sl.grid == "B" ? 3 : 6);
                     ++cn;
                 }
                 if (::unlink(file.c_str()) != 0) die("unlink installed program");
@@ -717,8 +774,8 @@ namespace
             {
                 std::set<std::pair<int, int>> byf, byi;
                 for (auto& p : present) { if (ff.count(p.first)) byf.insert(p); if (fi.count(p.second)) byi.insert(p); }
-                if (F == byf && ff.size() > 6) scope = std::to_string(ff.size()) + "-of-" + std::to_string(specs.size()) + (sl.grid == "C" ? "-names" : "-flavours");
-                else if (F == byf) { scope = sl.grid == "C" ? "name=" : "flavour="; for (int f : ff) scope += std::string(scope.back() == '=' ? "" : "+") + specs[size_t(f)].label; }
+                if (F == byf && ff.size() > 6) scope = std::to_string(ff.size()) + "-of-" + std::to_string(specs.size()) + (sl.grid == "C" ? "-names" : sl.grid == "E" ? "-states" : "-flavours");
+                else if (F == byf) { scope = sl.grid == "C" ? "name=" : sl.grid == "E" ? "state=" : "flavour="; for (int f : ff) scope += std::string(scope.back() == '=' ? "" : "+") + specs[size_t(f)].label; }
                 else if (F == byi) { scope = "invocation="; for (int i : fi) scope += std::string(scope.back() == '=' ? "" : "+") + INVOCATIONS[i]; }
                 else scope = "some";
             }
@@ -780,6 +837,7 @@ int main(int argc, char** argv)
             for (const std::string& l : T.shape_lens) slices.push_back(slice{"C", pos, l});
         for (int d : T.mixed_depths)
             for (const char* p : MIXED_POS) slices.push_back(slice{"D", d, p});
+        for (int k : T.state_paths) slices.push_back(slice{"E", k, "states"});
     }
     long mine = 0, done_n = 0;
     for (size_t i = 0; i < slices.size(); ++i)
